@@ -1141,12 +1141,14 @@ func (d *Data) Partition(ctx storage.Context, batchsize int32) ([]byte, error) {
 				layer.minZ, layer.maxZ, layer.maxZ-layer.minZ+1)
 			d.addSubvolumes(layer, &subvolumes, batchsize, merge)
 
-			// Init variables for next layer
-			layerBegZ = layerEndZ + 1
-			layerEndZ += batchsize
-			if zleft > 0 {
-				layerEndZ++
-				zleft--
+			// Init variables for next layer, skipping layers that hold no block
+			for z > layerEndZ {
+				layerBegZ = layerEndZ + 1
+				layerEndZ += batchsize
+				if zleft > 0 {
+					layerEndZ++
+					zleft--
+				}
 			}
 			layer = d.newLayer(layerBegZ, layerEndZ)
 		}
@@ -1281,9 +1283,11 @@ func (d *Data) SimplePartition(ctx storage.Context, batchsize int32) ([]byte, er
 			dvid.Debugf("Computing subvolumes in layer with Z %d -> %d (dz %d)\n", layer.minZ, layer.maxZ, layer.maxZ-layer.minZ+1)
 			d.addSubvolumesGrid(layer, &subvolumes, batchsize)
 
-			// Init variables for next layer
-			layerBegZ = layerEndZ + 1
-			layerEndZ += batchsize
+			// Init variables for next layer, skipping layers that hold no block
+			for z > layerEndZ {
+				layerBegZ = layerEndZ + 1
+				layerEndZ += batchsize
+			}
 			layer = d.newLayer(layerBegZ, layerEndZ)
 		}
 
